@@ -62,14 +62,15 @@ fn table() -> Vec<Bad> {
     for f in ["num", "numeric1", "number", "lex", "alpha", "int"] {
         push("sort-format", vec![a("keep-sorted", "asc"), a("keep-sorted-format", f)], vec![a("keep-sorted", "asc"), a("keep-sorted-format", "numeric")], &["1", "2"], "");
     }
-    for ls in [&["1", "x"][..], &["a", "b"], &["1", "2x"], &["1", "2", "three"], &["0x10", "17"]] {
+    for ls in [&["1", "x"][..], &["a", "b"], &["1", "2x"], &["1", "2", "three"], &["0x10", "17"], &["abc"], &["", "n/a", ""], &["12 apples"]] {
         push("non-numeric-keys", vec![a("keep-sorted", "asc"), a("keep-sorted-format", "numeric")], vec![a("keep-sorted", "asc")], ls, "");
     }
-    // every 2- and 3-line block over a small alphabet that has >= 2 keys of which at least one is not a number
+    // every 1-, 2- and 3-line block over a small alphabet that has a key which is not a number (a single key included)
     // (incl. identical non-numeric neighbours, blank lines between keys, descending direction)
     let alpha = ["1", "2", "x", "n/a", ""];
     let mut seqs: Vec<Vec<&str>> = vec![];
     for x in alpha {
+        seqs.push(vec![x]);
         for y in alpha {
             seqs.push(vec![x, y]);
             for z in alpha {
@@ -84,7 +85,7 @@ fn table() -> Vec<Bad> {
         // only blocks in which a non-numeric key is reached before any out-of-order pair: otherwise the
         // ordinary keep-sorted violation of the earlier pair is a legitimate (and failing) outcome
         let reaches_non_numeric = crate::models::keep_sorted(sq, if dir == "asc" { crate::models::Dir::Asc } else { crate::models::Dir::Desc }, None, true) == crate::models::KsOutcome::NonNumeric;
-        if keys.len() >= 2 && non_numeric && reaches_non_numeric {
+        if non_numeric && reaches_non_numeric {
             push("non-numeric-keys", vec![a("keep-sorted", dir), a("keep-sorted-format", "numeric")], vec![a("keep-sorted", dir), a("keep-sorted-format", "numeric"), a("keep-sorted-pattern", "^zzz$")], sq, "");
         }
     }
@@ -333,7 +334,7 @@ pub fn check(b: &Bad, probe: &Probe) -> Verdict {
 }
 
 pub fn run(run: &mut Run) {
-    run.rule = "enumerated: a table of malformations judged invalid by the statement (sort direction, sort format, non-numeric keys with >= 2 keys (5 hand-picked blocks and every 2- and 3-line block over {1, 2, x, n/a, blank} with a non-numeric key, incl. identical neighbours), 7 uncompilable regexes x 5 regex-bearing attributes on blocks with content, 15 bad line-count expressions, colon-less affects on a modified block, unknown severity on a violating block of every rule kind (keep-sorted, keep-unique, line-pattern, line-count, check-lua, check-ai), empty/missing/directory/invalid-UTF-8/empty-file Lua scripts, empty AI condition, missing/empty API key) x placement (first/middle/last block; healthy file before/after/both; other satisfied rules on the block) x mode (scan with paths, interactive scan, new-file diff); the sort-direction / sort-format / regex / line-count / Lua-script malformations also on a block written on ONE source line of a JavaScript file (content without a second physical line); every script-free malformation also next to a healthy check-lua block (synchronous and asynchronous validators joined in one run), every malformed script also BEHIND a healthy scripted block of the same file; each with a control run (malformation repaired) that must be healthy. Non-trivial = the malformed block is not alone/first. Quick runs a covering subset of the placement grid, thorough the full product.".into();
+    run.rule = "enumerated: a table of malformations judged invalid by the statement (sort direction, sort format, non-numeric keys (8 hand-picked blocks and every 1-, 2- and 3-line block over {1, 2, x, n/a, blank} in which a non-numeric key is reached before an out-of-order pair, incl. identical neighbours and blocks with a single key), 7 uncompilable regexes x 5 regex-bearing attributes on blocks with content, 15 bad line-count expressions, colon-less affects on a modified block, unknown severity on a violating block of every rule kind (keep-sorted, keep-unique, line-pattern, line-count, check-lua, check-ai), empty/missing/directory/invalid-UTF-8/empty-file Lua scripts, empty AI condition, missing/empty API key) x placement (first/middle/last block; healthy file before/after/both; other satisfied rules on the block) x mode (scan with paths, interactive scan, new-file diff); the sort-direction / sort-format / regex / line-count / Lua-script malformations also on a block written on ONE source line of a JavaScript file (content without a second physical line); every script-free malformation also next to a healthy check-lua block (synchronous and asynchronous validators joined in one run), every malformed script also BEHIND a healthy scripted block of the same file; each with a control run (malformation repaired) that must be healthy. Non-trivial = the malformed block is not alone/first. Quick runs a covering subset of the placement grid, thorough the full product.".into();
     run.assumptions = vec!["valid spellings are never expected to fail: every table entry is invalid by the statement's own wording".into()];
     let thorough = run.tier == crate::engine::Tier::Thorough;
     let items = enumerated(thorough);
